@@ -68,3 +68,66 @@ Print Assumptions C05_overlong_packed_length_refused.
 Theorem C05_refused_allocation_reported : forall c n s, c < n -> ralloc (Some c) n s = Err SBDF_ERROR_OUT_OF_MEMORY.
 Proof. intros c n s H. unfold ralloc, alloc_ok. destruct (n <=? c) eqn:E; [lia|reflexivity]. Qed.
 Print Assumptions C05_refused_allocation_reported.
+
+(* ---- the core of the reader from the source: sbdf_read_objects (src/object.c, translated on every run with its calls) ----
+   For EVERY byte stream, count, memory, heap and allocation oracle the call returns a status and nothing else (it runs to
+   completion in a semantics in which every out-of-bounds access, use of a released block, double free, unset local and
+   signed overflow is a fault).  Elements of fixed size: the status is given by fixed_status; on success the header block,
+   the data block holding exactly the bytes taken from the stream, the output argument; on every failure the output
+   argument is null, no block of the cell heap stays allocated, and the caller's memory is a prefix of the memory. *)
+From Sbdf Require Import Imp ImpCall Gen.Prog ImpBase ImpFactsCells ImpFactsReadObj ImpFactsReadArr.
+
+Theorem C05_source_read_objects_fixed : forall rf rp fo po k sx m h v cnt pk, int_min <= cnt <= int_max -> is_arr v = false ->
+  exists f0, forall f, (f0 <= f)%nat -> exists fin,
+    callC prog_env f prog_sbdf_read_objects [VPtr rf fo; VInt v; VInt cnt; VPtr rp po; VInt pk] m k sx h = OReturn (VInt (fixed_status k sx v cnt)) fin /\
+    (fixed_status k sx v cnt = SBDF_OK ->
+       Imp.lookup "*object" (vars fin) = Some (VCell (List.length h) 0) /\
+       Imp.lookup cells_var (vars fin) = Some (VHeap (h ++ [Some [VInt v; VInt cnt; VPtr RIn (zlen m)]])) /\
+       inb fin = m ++ firstn (Z.to_nat (usize v * cnt)) sx /\
+       Imp.lookup strm_var (vars fin) = Some (VBytes (skipn (Z.to_nat (usize v * cnt)) sx))) /\
+    (fixed_status k sx v cnt <> SBDF_OK ->
+       Imp.lookup "*object" (vars fin) = Some VNull /\
+       (Imp.lookup cells_var (vars fin) = Some (VHeap h) \/ Imp.lookup cells_var (vars fin) = Some (VHeap (h ++ [None]))) /\
+       exists m', inb fin = m ++ m').
+Proof. exact read_objects_fixed_source. Qed.
+Print Assumptions C05_source_read_objects_fixed.
+
+(* without allocation failures that status is the model's, and the stream ends where the model's ends *)
+Theorem C05_source_fixed_status_is_the_models : forall k sx v cnt p, k < 0 -> is_arr v = false ->
+  match read_objects false None v cnt p sx with
+  | Ok (ob, s') => fixed_status k sx v cnt = SBDF_OK /\ s' = skipn (Z.to_nat (usize v * cnt)) sx /\ oty ob = v
+  | Err st => fixed_status k sx v cnt = st
+  end.
+Proof. exact fixed_status_model. Qed.
+Print Assumptions C05_source_fixed_status_is_the_models.
+
+(* string and binary elements: the outcome is given by arr_spec (a functional description with the allocation oracle:
+   pointer array, optional byte-size header, then per element a length - 32-bit or 7-bit packed -, a fresh block and the
+   bytes); whatever fails half-way - a length that cannot be read, a negative length, a string of INT_MAX bytes, an
+   allocation, a stream that ends inside an element - everything built so far is released exactly once *)
+Theorem C05_source_read_objects_arrays : forall rf rp fo po k sx m h v cnt pk, Forall byte sx -> int_min <= cnt <= int_max -> is_arr v = true ->
+  exists f0, forall f, (f0 <= f)%nat ->
+  match arr_spec k sx m v cnt pk with
+  | EOk qs k' s' m' => exists fin,
+      callC prog_env f prog_sbdf_read_objects [VPtr rf fo; VInt v; VInt cnt; VPtr rp po; VInt pk] m k sx h = OReturn (VInt SBDF_OK) fin /\
+      Imp.lookup "*object" (vars fin) = Some (VCell (List.length h) 0) /\ Imp.lookup cells_var (vars fin) = Some (VHeap (arr_heap h v cnt qs [])) /\ zlen qs = cnt /\
+      inb fin = m' /\ Imp.lookup strm_var (vars fin) = Some (VBytes s') /\ Imp.lookup fail_var (vars fin) = Some (VInt k')
+  | EErr st => exists fin,
+      callC prog_env f prog_sbdf_read_objects [VPtr rf fo; VInt v; VInt cnt; VPtr rp po; VInt pk] m k sx h = OReturn (VInt st) fin /\
+      Imp.lookup "*object" (vars fin) = Some VNull /\
+      (Imp.lookup cells_var (vars fin) = Some (VHeap h) \/ Imp.lookup cells_var (vars fin) = Some (VHeap (h ++ [None])) \/ Imp.lookup cells_var (vars fin) = Some (VHeap (h ++ [None; None]))) /\
+      prefix_of m (inb fin)
+  end.
+Proof. exact read_objects_arr_source. Qed.
+Print Assumptions C05_source_read_objects_arrays.
+
+(* and that description is the model's read_objects when no allocation fails: same status, same stream position, and the
+   memory has grown by exactly one block per element of the model's object, in order *)
+Theorem C05_source_arr_spec_is_the_models : forall k sx m v cnt pk, k < 0 -> is_arr v = true -> Forall byte sx ->
+  match read_objects false None v cnt (negb (pk =? 0)) sx with
+  | Ok (ob, s') => exists qs, arr_spec k sx m v cnt pk = EOk qs k s' (blocks (v =? SBDF_STRINGTYPEID) m (oelems ob)) /\
+                               List.length qs = List.length (oelems ob) /\ oty ob = v
+  | Err st => arr_spec k sx m v cnt pk = EErr st
+  end.
+Proof. exact arr_spec_model. Qed.
+Print Assumptions C05_source_arr_spec_is_the_models.
